@@ -1269,6 +1269,9 @@ Proof.
   split; [apply (drain_all_ok rv); exact W|]. apply (wf_obs rv). exact W.
 Qed.
 
+(* name used by DESIGN.md 3.3b for the Layer A -> Layer B refinement lemma *)
+Definition merge_abstraction_sound := merge_refines.
+
 (* Rewind + Next* from any reachable state yields the sorted union, earliest input first *)
 Theorem merge_rewind_drain rv inputs ops :
   inputs <> [] -> Forall (sorted tcmp) inputs -> Forall gkeys inputs -> Forall op_good ops ->
